@@ -190,6 +190,27 @@ func runOp(c driver.Case) driver.Result {
 	mids := catalog.MidApplied()
 	exempt := flags.Has(catalog.CtxExempt)
 	strict := !(flags.Has(catalog.Stores) || flags.Has(catalog.AggCtx) || flags.Has(catalog.MultiFeed) || flags.Has(catalog.Resub) || asyncish || len(srcs) > 1)
+	// operators that store each value and deliver it later, one for one and in order (the delays
+	// and the hand-offs): the i-th delivered value is the i-th value of the source and must carry
+	// the context that value arrived with, however many values are waiting inside the operator
+	if len(chain) == 0 && len(srcs) == 1 && !exempt && (fam == "Delay" || fam == "ObserveOn" || fam == "SubscribeOn") {
+		var nexts []src.Emission
+		for _, em := range all {
+			if em.N.K == rec.Next {
+				nexts = append(nexts, em)
+			}
+		}
+		k := 0
+		for i, x := range ev {
+			if x.Kind != rec.Next {
+				continue
+			}
+			if k < len(nexts) && x.Item != nexts[k].Tag {
+				return fail("per-item-value-of-another-item", fmt.Sprintf("callback #%d (%s) is the %d. value of the source (%s) but carries the context of %q", i, x.String(), k+1, nexts[k].Tag, x.Item))
+			}
+			k++
+		}
+	}
 	var samples []string
 	for i, x := range ev {
 		if x.CtxNil {
